@@ -5,6 +5,7 @@ CONSTANTS
   MaxData = 1
   MaxHist = 6
   RegWhileClaimed = "refuse"
+  AltSpelling = "off"
 INVARIANTS ReachAll
 VIEW ViewObs
 CONSTRAINT Bound
